@@ -454,6 +454,14 @@ func (s *Sim) exec(st stepRef) {
 			// the same searches at every read of a view (stability), and searches
 			// without a filter must list exactly the view's streams (completeness)
 			op.Def = strings.Join(viewBattery(s.plan), "\x00")
+		} else if (op.K == "OpenView" || op.K == "ReadView") && s.plan.Prop == "C20" {
+			// searches that read payloads and converter output on the caller's
+			// goroutine while jobs read them on theirs (results are not compared)
+			b := []string{"data:\"FLAG\" sort:id", "sport:80,443 sort:id"}
+			for _, c := range s.plan.Converters {
+				b = append(b, fmt.Sprintf("data.%s:\"vconv\" sort:id", c))
+			}
+			op.Def = strings.Join(b, "\x00")
 		}
 		s.or.beforeAPI(op)
 		wf := s.writeFault("api", 0, op.ID)
